@@ -149,7 +149,11 @@ static RunResult run_c17(const RunSpec &spec) {
             ParseOpts o; o.policy = pr.chance(2, 3) ? 1 : 0; o.target = (spec.run % 4 == 0) ? 0 : 1; o.max_frame_depth = (int) pr.range(-1, 1); StreamCfg sc; sc.chunk = pr.chance(1, 2) ? (size_t) pr.range(1, 64) : 0;
             // half of the parses run with handlers that query the objects they are given (allocations inside callbacks count too)
             if (pr.chance(1, 2)) { o.hp.present = true; o.hp.reenter = true; for (int k = 0; k < 11; ++k) o.hp.resp[k].push_back(CIF_TRAVERSE_CONTINUE); o.syntax_callbacks = pr.chance(1, 2); }
-            ev("C17 parse of %zu bytes (%d corruption(s)), policy=%d target=%d handlers=%d", bytes.size(), ncor, o.policy, o.target, o.hp.present ? 1 : 0);
+            // a third of the parses run with small scanner / reader buffers: ordinary tokens then make the scan buffer grow (several times),
+            // so the allocation that enlarges it, and the buffer states around it, are among the enumerated failure sites
+            Knobs kn; if (!spec.mods.default_knobs && pr.chance(1, 3)) { kn = gen_knobs(pr, false); g_stats.inc("c17.parse_small_buffers"); }
+            kn.apply();
+            ev("C17 parse of %zu bytes (%d corruption(s)), policy=%d target=%d handlers=%d knobs %s", bytes.size(), ncor, o.policy, o.target, o.hp.present ? 1 : 0, kn.str().c_str());
             if (g_log.keep_text) { std::string t; for (size_t i = 0; i < bytes.size() && t.size() < 900; ++i) { unsigned char ch = bytes[i]; if (ch == '\n') t += "\\n"; else if (ch >= 0x20 && ch < 0x7f && ch != '\\') t += (char) ch; else t += strprintf("\\x%02x", ch); } ev("bytes: %s", t.c_str()); }
             // reference: the same call with memory available
             ParseOutcome ref = run_parse(bytes, o, sc, NULL);
@@ -177,10 +181,11 @@ static RunResult run_c17(const RunSpec &spec) {
             if (made) { int q = cif_destroy(made); made = NULL; if (q != CIF_OK && !bad) bad.reset(new Violation(prop + ".args_valid", "cif_destroy", "cif_destroy failed", -1)); }
             if (bad) throw *bad;
             g_stats.inc("c17.parse_steps", (uint64_t) fe.steps); g_stats.inc(ncor ? "c17.parse_damaged" : "c17.parse_wellformed");
+            Knobs::reset();
             fe.txm.finish();
         } else { what = "walk"; res = eng_walk_run_cfg(spec, prop, true); }
     } catch (Violation &v) {
-        g_lalloc.disarm(); g_salloc.disarm(); g_disk.disarm();
+        g_lalloc.disarm(); g_salloc.disarm(); g_disk.disarm(); Knobs::reset();
         std::string c = v.clause.substr(v.clause.find('.') + 1);
         if (c == "rc") c = "retry";                     // the attempt during which nothing failed must behave normally
         // (clauses of the round-trip oracle - refused, reparse, equiv, ... - judge the attempt of cif_write / cif_parse during which no
